@@ -39,6 +39,13 @@ def rule_dispatch(ctx: Ctx, data):
     ctx.need(TT is not None and readers, "token-type dispatch chain not found in get_citations")
     loop = next((s for s in gc.body if isinstance(s, ast.For)), None)
     paths = enumerate_paths(loop.body) if loop is not None else []
+    CV = None
+    for st in (loop.body if loop is not None else []):
+        if isinstance(st, ast.Expr) and isinstance(st.value, ast.Call) and isinstance(st.value.func, ast.Attribute) and st.value.func.attr == "append" \
+                and len(st.value.args) == 1 and isinstance(st.value.args[0], ast.Name):
+            CV = st.value.args[0].id
+            APP = st
+    ctx.need(CV is not None, "no top-level `<list>.append(<citation>)` in the main loop of get_citations")
     for w in writers:
         if w in NOT_A_CITATION:
             used = any(any(isinstance(n, ast.Name) and n.id == w for n in walk_local(f)) for q, m, f in repo.all_funcs() if m.name == "helpers")
@@ -50,11 +57,11 @@ def rule_dispatch(ctx: Ctx, data):
         why = "no branch tests this token class: its tokens are silently skipped"
         if ok:
             # the branch assigns `citation` and reaches citations.append(citation)
-            assigns = any(isinstance(s, ast.Assign) and "citation" in assigned_names(s) for s in stmts_local(br.body))
+            assigns = any(isinstance(s, ast.Assign) and CV in assigned_names(s) for s in stmts_local(br.body))
             reaches = False
             for p in paths:
                 took = any(ev[0] == "cond" and ev[1] is br.test and ev[2] for ev in p.events)
-                if took and any(ev[0] == "stmt" and "append(citation)" in norm(ev[1]) for ev in p.events):
+                if took and any(ev[0] == "stmt" and ev[1] is APP for ev in p.events):
                     reaches = True
             ok = assigns and reaches
             why = f"branch assigns citation={assigns}, reaches the append={reaches}"
@@ -176,23 +183,29 @@ def rule_scan_direction(ctx: Ctx):
     repo = ctx.repo
     hm = repo.mod("helpers")
     fn = repo.need_func("helpers.match_on_tokens")
+    from ..motroles import bind as bind_mot
+
+    R = bind_mot(fn)
+    TXT, TOK, IDXS, RX, WORDS = R["text"], R["token"], R["indexes"], R["regex"], R["words"]
     facts = {"forward": {}, "backward": {}}
     for n in walk_local(fn):
         if isinstance(n, ast.If) and norm(n.test) == "forward":
             for side, body in (("forward", n.body), ("backward", n.orelse)):
                 for s in stmts_local(body):
                     t = norm(s)
-                    if isinstance(s, ast.Assign) and norm(s.targets[0]) == "regex":
+                    if isinstance(s, ast.Assign) and norm(s.targets[0]) == RX:
                         facts[side]["anchor"] = "start" if "^(?:" in t else ("end" if ")$" in t else "?")
-                    if isinstance(s, ast.AugAssign) and norm(s.target) == "text" and isinstance(s.op, ast.Add):
+                    if isinstance(s, ast.AugAssign) and norm(s.target) == TXT and isinstance(s.op, ast.Add) and norm(s.value) == f"str({TOK})":
                         facts[side]["grow"] = "append"
-                    if isinstance(s, ast.Assign) and norm(s.targets[0]) == "text" and isinstance(s.value, ast.BinOp) and norm(s.value.right) == "text":
+                    if isinstance(s, ast.Assign) and norm(s.targets[0]) == TXT and isinstance(s.value, ast.BinOp) and norm(s.value.right) == TXT \
+                            and norm(s.value.left) == f"str({TOK})":
                         facts[side]["grow"] = "prepend"
-                    if isinstance(s, ast.Assign) and norm(s.targets[0]) == "text" and isinstance(s.value, ast.Subscript) and isinstance(s.value.slice, ast.Slice):
+                    if isinstance(s, ast.Assign) and norm(s.targets[0]) == TXT and isinstance(s.value, ast.Subscript) and isinstance(s.value.slice, ast.Slice) \
+                            and norm(s.value.value) == TXT:
                         sl = s.value.slice
                         facts[side]["truncate"] = "keep-head" if sl.lower is None and sl.upper is not None else ("keep-tail" if sl.upper is None and isinstance(sl.lower, ast.UnaryOp) else "?")
-                    if isinstance(s, ast.Assign) and norm(s.targets[0]) == "indexes":
-                        facts[side]["indexes"] = "ascending" if "len(words))" in t and ", -1)" not in t else "descending"
+                    if isinstance(s, ast.Assign) and norm(s.targets[0]) == IDXS:
+                        facts[side]["indexes"] = "ascending" if f"len({WORDS}))" in t and ", -1)" not in t else "descending"
     want = {"forward": {"anchor": "start", "grow": "append", "truncate": "keep-head", "indexes": "ascending"},
             "backward": {"anchor": "end", "grow": "prepend", "truncate": "keep-tail", "indexes": "descending"}}
     for side in ("forward", "backward"):
